@@ -4,14 +4,24 @@ Lean: Props/C11.lean — Sync invariant preserved by every operation (accepted o
 every history; free lists agree; rejected operations change nothing; post-fit value transfer.
 Correspondence: random operation histories on real MinuitFitter objects; after every operation both
 copies of the state are dumped and compared exactly with the model; small real fits for the
-post-fit clauses.
+post-fit clauses; multi-fit histories on ONE fitter object (fit -> fix/release/limit -> fit -> ..., some of the
+fits ending invalid) with the sync comparison after every operation and every fit and the post-fit clauses
+after every fit.
 """
+import contextlib
+import io
 import math
+import os
+import traceback
 
 import common
 import fixtures
 
 INF = float('inf')
+
+# the known finding (known_findings.json, C11) is matched by this exact key; it is emitted only with the signature of the
+# documented cause (see fixed_changed_key)
+TMV2_KNOWN_KEY = 'fit/fixed-changed/tmv2/default-outside-limits->upper-limit'
 
 
 def lim_token(table, lim):
@@ -37,6 +47,26 @@ def dump(th, fit, names, table):
     tfree = list(th.free_parameters())
     mfree = [n for n in fit.minuit.parameters if not fit.minuit.fixed[n]]
     return dict(tfixed=tf, mfixed=mf, tlimits=tl, mlimits=ml, tfree=tfree, mfree=mfree)
+
+
+def unsync_of(st, names, out=None):
+    """the first half of the property itself, on a dump of the real objects: which of (fixed status, limits, free lists,
+    the answer of free_parameters()) differ between theory and minimiser; [] when the two are in sync"""
+    tf = {n: False for n in names}
+    for kv in ([] if st['tfixed'] == '-' else st['tfixed'].split(',')):
+        k, v = kv.split('='); tf[k] = v == '1'
+    tl = {} if st['tlimits'] == '-' else dict(x.split('=') for x in st['tlimits'].split(','))
+    # an infinite interval stored in the theory is the same limit as none
+    unsync = []
+    if any(tf.get(n, False) != st['mfixed'][n] for n in names) or any(k not in names for k in tf):
+        unsync.append('fixed')
+    if tl != st['mlimits']:
+        unsync.append('limits')
+    if st['tfree'] != st['mfree']:
+        unsync.append('free-lists')
+    if out is not None and out.startswith('free:') and out.split(':')[1] != (','.join(st['tfree']) or '-'):
+        unsync.append('free_parameters()-return')
+    return unsync
 
 
 def parse_model_state(tokens, names):
@@ -65,6 +95,435 @@ def make_theory(rng, kind):
     return T(p=0)
 
 
+# ---------------------------------------------------------------------------------------------------------------
+# helpers shared by the fit streams
+# ---------------------------------------------------------------------------------------------------------------
+
+def from_real_code(e):
+    """does the traceback of `e` pass through a frame of the package under study (then the real code raised, or
+    something it called - iminuit - did); False: the fault lies in harness frames only (or in iminuit / numpy called
+    by the harness directly)"""
+    src = os.path.join(common.REPO, 'src') + os.sep
+    return any(os.path.abspath(f.filename).startswith(src) for f in traceback.extract_tb(e.__traceback__))
+
+
+def model_unavailable(rep, e, where):
+    rep.violation('model-unavailable', 'the executable model could not be built: %s (%s; every check of the property on the '
+                  'real objects was still evaluated)' % (e, where),
+                  dict(correspondence='model driver of C11', detail=str(e), where=where), found_input=False)
+
+
+def quiet_chisq(th, ds):
+    """chi-square of the theory on the fit points WITHOUT leaving a trace in theory.parameters: evaluating a prediction
+    rewrites derived parameters (ng = 0.6 - ns, ...) inside the parameter dict; the harness's own observation between two
+    operations of a history must not do that (the history consists of the fitter's operations only)"""
+    snap = dict(th.parameters)
+    try:
+        return float(th.chisq(ds))
+    finally:
+        th.parameters.clear()
+        th.parameters.update(snap)
+
+
+_tmv2_decl = []
+
+
+def tmv2_declared():
+    """(model default, declared limits) of tmv2, read from a fresh DispersionFixedPoleCFF; None if that cannot be had"""
+    if not _tmv2_decl:
+        try:
+            import gepard as g
+            c = g.DispersionFixedPoleCFF()
+            lo, hi = c.parameters_limits['tmv2']
+            _tmv2_decl.append((float(c.parameters['tmv2']), (float(lo), float(hi))))
+        except Exception:
+            _tmv2_decl.append(None)
+    return _tmv2_decl[0]
+
+
+def fixed_changed_key(n, before, after, lim_in_force):
+    """key of a 'fixed parameter changed during the fit' violation.  The known finding about tmv2 is matched ONLY with the
+    signature of its documented cause: the value before the fit is the model default, that default lies outside the declared
+    limits, the limit in force is the declared one, and the value after the fit is bit-for-bit the end of the interval the
+    default was clipped to.  Any other change of a fixed tmv2 keeps the plain key and is reported."""
+    key = 'fit/fixed-changed/%s' % n
+    decl = tmv2_declared()
+    if n != 'tmv2' or decl is None or lim_in_force is None:
+        return key
+    default, (lo, hi) = decl
+    try:
+        inforce = (-INF if lim_in_force[0] is None else float(lim_in_force[0]),
+                   INF if lim_in_force[1] is None else float(lim_in_force[1]))
+    except Exception:
+        return key
+    if common.f2hex(before) != common.f2hex(default) or inforce != (lo, hi) or lo <= default <= hi:
+        return key
+    if default > hi and common.f2hex(after) == common.f2hex(hi):
+        return key + '/default-outside-limits->upper-limit'
+    if default < lo and common.f2hex(after) == common.f2hex(lo):
+        return key + '/default-outside-limits->lower-limit'
+    return key
+
+
+def norm_lim(lim):
+    if lim is None:
+        return (-INF, INF)
+    return (-INF if lim[0] is None else float(lim[0]), INF if lim[1] is None else float(lim[1]))
+
+
+def checked_fit(fit, th, ds, extra_lims=None):
+    """run fit.fit() on the real objects and evaluate the post-fit clauses of the property.
+    Returns (problems, info, covline): problems = [(key, text)], info for coverage, covline = (protocol line, real
+    covariance string) for the covsync model or None.  Exceptions of fit() propagate to the caller."""
+    chi0 = quiet_chisq(th, ds)
+    before = dict(th.parameters)
+    lims_before = dict(th.parameters_limits)
+    freeset = set(th.free_parameters())    # includes parameters never given a status
+    with contextlib.redirect_stdout(io.StringIO()):
+        fit.fit()
+    after = dict(th.parameters)
+    mvals = fit.minuit.values.to_dict()
+    problems = []
+    for n in before:
+        if n not in freeset and (n not in after or common.f2hex(before[n]) != common.f2hex(after[n])):
+            problems.append((fixed_changed_key(n, before[n], after.get(n, float('nan')), lims_before.get(n)),
+                             'fixed parameter %s changed: %r -> %r' % (n, before[n], after.get(n))))
+    # free ones lie within their limits: the limits the theory declares / holds and the ones the minimiser holds, for EVERY
+    # free parameter (extra_lims: the ones the harness has just set, checked by name even if the theory lost them)
+    for n in [x for x in after if x in freeset]:
+        for src, lim in (('theory.parameters_limits', th.parameters_limits.get(n)),
+                         ('limits before the fit', lims_before.get(n)),
+                         ('minuit.limits', tuple(fit.minuit.limits[n])),
+                         ('limits set through the fitter', (extra_lims or {}).get(n))):
+            lo, hi = norm_lim(lim)
+            if not (lo <= after[n] <= hi):
+                problems.append(('fit/outside-limits/%s' % n, 'free parameter %s = %r outside its limits %r (%s)' % (
+                    n, after[n], (lo, hi), src)))
+                break
+    for n in after:
+        if n not in mvals or common.f2hex(after[n]) != common.f2hex(mvals[n]):
+            problems.append(('fit/theory!=minuit.values/%s' % n, 'theory.parameters[%s] = %r, minuit.values: %r' % (
+                n, after[n], mvals.get(n))))
+    errs = fit.minuit.errors.to_dict()
+    terrs = getattr(th, 'parameters_errors', None)
+    if not isinstance(terrs, dict) or list(terrs) != list(errs) or any(
+            common.f2hex(terrs[n]) != common.f2hex(errs[n]) for n in errs):
+        problems.append(('fit/errors-not-copied/', 'theory.parameters_errors is not minuit.errors'))
+    cov = getattr(th, 'covariance', None)
+    covline = None
+    mcov = fit.minuit.covariance
+    if mcov is None:
+        if cov:
+            problems.append(('fit/stale-covariance/', 'the minimiser has no covariance, the theory holds one'))
+    else:
+        fl = list(th.free_parameters())
+        want = {(a, b): float(mcov[a, b]) for a in fl for b in fl}
+        if cov is None or set(cov) != set(want) or any(common.f2hex(cov[k]) != common.f2hex(want[k]) for k in cov):
+            problems.append(('fit/covariance-not-copied/', 'theory.covariance is not the minimiser\'s matrix restricted to '
+                             'free x free (free: %s; keys: %s)' % (fl, sorted(cov or {})[:6])))
+        # the covsync model: entries for exactly free x free, looked up by NAME in the minimiser's matrix
+        mnames = list(fit.minuit.parameters)
+        mat = [float(mcov[a, b]) for a in mnames for b in mnames]
+        line = 'c11.covsync N %s F %s M %s' % (' '.join(mnames), ' '.join(fl), ' '.join(map(common.f2hex, mat)))
+        real_cov = ' '.join('%s,%s=%s' % (k[0], k[1], common.f2hex(v)) for k, v in (cov or {}).items()) or '-'
+        covline = (line, real_cov, fl, len(cov or {}))
+    chi1 = quiet_chisq(th, ds)
+    fval = float(fit.minuit.fval)
+    valid = bool(fit.minuit.valid)
+    if not (abs(chi1 - fval) <= 1e-9 * max(1.0, abs(chi1))):
+        problems.append(('fit/chisq!=fval/', 'chi-square of the theory %r, minimum of the minimiser %r' % (chi1, fval)))
+    if not (chi1 <= chi0 * (1 + 1e-9) + 1e-12):
+        problems.append(('fit/chisq-increased/', 'chi-square went up during the fit: %r -> %r (minimum %s)' % (
+            chi0, chi1, 'valid' if valid else 'invalid')))
+    return problems, dict(chi0=chi0, chi1=chi1, valid=valid, free=sorted(freeset)), covline
+
+
+# ---------------------------------------------------------------------------------------------------------------
+# multi-fit histories
+# ---------------------------------------------------------------------------------------------------------------
+
+def multifit_setup(rng, kind):
+    """theory, fit points (with their provenance), pool of parameters the data constrain, pool of flat directions"""
+    import gepard as g
+    from gepard import fits
+    if kind == 'dis':
+        class TD(g.PWNormGPD, g.DIS):
+            pass
+        th = TD(p=0)
+        th.parameters.update({'ns': 0.15, 'al0s': 1., 'alps': 0.15, 'ms2': 1., 'secs': 0., 'al0g': 1.1,
+                              'alpg': 0.15, 'mg2': 0.7})
+        pool = [('gepard.dset[%d][%d]' % (k, i), p) for k in (201, 202) for i, p in enumerate(g.dset[k])]
+        npts = rng.choice([4, 6, 8])
+        # F2 at t = 0 does not depend on the t-slopes / masses, nor on anything of the GPD E
+        good, flat = ['ns', 'al0s', 'al0g'], ['ms2', 'alps', 'mg2', 'alpg', 'Eal0s', 'Ems2']
+        label = 'PWNormGPD+DIS(p=0), ns=0.15 al0s=1 alps=0.15 ms2=1 secs=0 al0g=1.1 alpg=0.15 mg2=0.7'
+    elif kind == 'KM09':
+        th = fits.KM09()
+        th.parameters.update(fits.par_KM09a)
+        pool = [('gepard.fits.GLOpoints[%d]' % i, p) for i, p in enumerate(fits.GLOpoints)]
+        npts = 6
+        # par_KM09a has tNv = 0: no Htilde, its shape parameters are flat directions (the two with declared limits: an
+        # unlimited flat direction may wander until the model overflows)
+        good, flat = ['rv', 'bv', 'C', 'mC2'], ['trv', 'tbv']
+        label = 'fits.KM09() with fits.par_KM09a'
+    else:
+        th = fixtures.adhoc('KellyEFF', 'BMK', {'ImH': 5.0, 'ReH': -2.0, 'ImHt': 1.0})
+        pool = []
+        for k in sorted(g.dset):
+            if getattr(g.dset[k], 'process', None) not in ('ep2epgamma', 'en2engamma'):
+                continue
+            for i, p in enumerate(g.dset[k]):
+                if p.get('observable') in ('ALU', 'AC', 'XUU', 'BSA') and 'phi' in p and 't' in p and p.get('err'):
+                    pool.append(('gepard.dset[%d][%d]' % (k, i), p))
+        npts = 2      # very few points: degenerate minima, which iminuit still calls valid (the all-valid histories)
+        good, flat = ['ImH', 'ReH', 'ImHt', 'ReHt', 'ImE', 'ReE'], ['ImEt', 'ReEt']
+        label = "KellyEFF + constant CFFs (ImH=5 ReH=-2 ImHt=1, others 0) + BMK"
+    sel = rng.sample(pool, npts)
+    return th, [p for _, p in sel], [s for s, _ in sel], good, flat, label
+
+
+def multifit_scenario(rep, rng, kind, skeleton, covlines):
+    """ONE fitter object through fit -> operations -> fit -> ...; the sync comparison after every operation and every fit,
+    the post-fit clauses after every fit.  Returns True when the history contained an invalid fit followed by at least one
+    accepted operation and a further fit."""
+    import gepard as g
+    th, pts, sel, good, flat, label = multifit_setup(rng, kind)
+    ds = g.DataSet(pts)
+    names = list(th.parameters.keys())
+    table = {}
+    steps = []           # the full op / fit sequence as executed, with outcomes
+    replay = dict(stream='multifit', theory=kind, theory_setup=label, points=sel, skeleton=skeleton, sequence=steps)
+    state = dict(invalid_seen=False, op_after_invalid=False, pattern=False, nfit=0, stop=False)
+
+    def rp(**kw):
+        # the replay as of now (the sequence list keeps growing)
+        return dict(replay, sequence=[dict(s) for s in steps], **kw)
+    th.chisq(ds)          # settles derived parameters (ng = 0.6 - ns, ...) before the fitter exists
+    fit = g.MinuitFitter(ds, th)
+
+    def sync_check(opname):
+        st = dump(th, fit, names, table)
+        un = unsync_of(st, names)
+        if un:
+            rep.violation('multifit/sync/%s/%s' % (opname.split()[0], '+'.join(un)),
+                          'after %r (step %d of a multi-fit history on one fitter, %s theory) theory and minimiser disagree '
+                          'on %s: theory free=%s, minuit free=%s; theory limits=%s, minuit limits=%s; history: %s' % (
+                              opname, len(steps), kind, un, st['tfree'], st['mfree'],
+                              {k: v for k, v in th.parameters_limits.items()},
+                              {n: tuple(fit.minuit.limits[n]) for n in names if tuple(fit.minuit.limits[n]) != (-INF, INF)},
+                              [s['op'] for s in steps]),
+                          rp(state=st))
+            state['stop'] = True
+        return not un
+
+    def op(name, args=None, lims=None):
+        """one fix / release / limit / free operation through the fitter"""
+        if state['stop']:
+            return
+        if name == 'fix':
+            txt, call = 'fix ' + ' '.join(args), (lambda: fit.fix_parameters(*args))
+            bogus = args[0] != 'ALL' and any(a not in names for a in args)
+        elif name == 'release':
+            txt, call = 'release ' + ' '.join(args), (lambda: fit.release_parameters(*args))
+            bogus = any(a not in names for a in args)
+        elif name == 'limit':
+            txt, call = 'limit %r' % (lims,), (lambda: fit.limit_parameters(lims))
+            bogus = any(a not in names for a in lims)
+        else:
+            txt, call, bogus = 'free', (lambda: fit.free_parameters()), False
+        try:
+            res = call()
+            out = 'ok'
+        except Exception as e:
+            res, out = None, type(e).__name__
+            if not (bogus and isinstance(e, (ValueError, IndexError, KeyError, TypeError, RuntimeError))):
+                if isinstance(e, common.ModelUnavailable) or not from_real_code(e):
+                    raise       # a fault of the machinery is not a failing input
+                steps.append(dict(op=txt, outcome=out))
+                rep.violation('multifit/op-raised/%s/%s' % (name, out), 'operation %r with known names only raised %r '
+                              '(multi-fit history on %s theory: %s)' % (txt, e, kind, [s['op'] for s in steps]), rp())
+                state['stop'] = True
+                return
+        steps.append(dict(op=txt, outcome=out))
+        rep.hist('multifit-op', name + ('/rejected' if out != 'ok' else ''))
+        if name == 'free':
+            mfree = [n for n in fit.minuit.parameters if not fit.minuit.fixed[n]]
+            if res != mfree:
+                rep.violation('multifit/sync/free/free_parameters()-return', 'fitter.free_parameters() returned %r, the '
+                              'minimiser has %r free (multi-fit history on %s theory: %s)' % (
+                                  res, mfree, kind, [s['op'] for s in steps]), rp())
+                state['stop'] = True
+                return
+        if out == 'ok' and name != 'free' and state['invalid_seen']:
+            state['op_after_invalid'] = True
+        sync_check(txt)
+
+    def around(n):
+        v = float(th.parameters[n])
+        return (v - abs(v) * 0.5 - 0.5, v + abs(v) * 0.5 + 0.5)
+
+    def limit(ns):
+        d = {}
+        for n in ns:
+            lo, hi = around(n)
+            dl = th.parameters_limits.get(n)
+            if dl is not None:
+                # never wider than the range the model declares for the parameter (and always containing the present value)
+                dlo, dhi = norm_lim(dl)
+                lo, hi = max(lo, min(dlo, float(th.parameters[n]))), min(hi, max(dhi, float(th.parameters[n])))
+            d[n] = (lo, hi)
+        op('limit', lims=d)
+        return d
+
+    def dofit():
+        if state['stop']:
+            return
+        if not any(n in good for n in th.free_parameters()):
+            # a fit whose free directions are ALL flat is outside what this stream asks: the minimiser's simplex fallback then
+            # walks off to non-finite values (seen on the unchanged tree: AssertionError in gpd.qj for alps = inf)
+            op('release', [rng.choice(good)])
+            if state['stop']:
+                return
+        if state['invalid_seen'] and state['op_after_invalid']:
+            state['pattern'] = True
+        lims_set = {}
+        for s in steps:
+            if s['op'].startswith('limit') and s['outcome'] == 'ok':
+                lims_set.update(s.get('limits', {}))
+        try:
+            problems, info, covline = checked_fit(fit, th, ds, extra_lims=lims_set)
+        except Exception as e:
+            if isinstance(e, common.ModelUnavailable) or not from_real_code(e):
+                raise
+            steps.append(dict(op='fit', outcome='raised %r' % (e,)))
+            free_now = set(th.free_parameters())
+            nonfinite = [n for n, v in th.parameters.items() if not math.isfinite(v)]
+            if nonfinite and all(n in free_now for n in nonfinite):
+                # the cost function leaves the last trial point in theory.parameters: the minimiser handed it a non-finite
+                # value of a FREE parameter (a flat direction) and the model refused to evaluate there.  The property speaks
+                # about fits that return; this history ends here, nothing is claimed.
+                rep.hist('multifit-fit', 'raised at a non-finite trial point')
+                msg = 'multi-fit stream: a fit raised at a non-finite trial value of a free parameter (flat direction); history dropped'
+                if msg not in rep.notes:
+                    rep.notes.append(msg)
+                state['stop'] = True
+                return
+            rep.violation('multifit/fit/exception/' + type(e).__name__, 'fit number %d of a multi-fit history on one fitter '
+                          '(%s theory) raised %r; history: %s' % (state['nfit'] + 1, kind, e, [s['op'] for s in steps]), rp())
+            state['stop'] = True
+            return
+        state['nfit'] += 1
+        steps.append(dict(op='fit', outcome='valid' if info['valid'] else 'invalid', free=info['free'],
+                          chisq_start=info['chi0'], chisq_end=info['chi1']))
+        rep.hist('multifit-fit', ('valid' if info['valid'] else 'invalid') + ('/first' if state['nfit'] == 1 else '/later'))
+        rep.case('multifit', (kind, skeleton, tuple(sel), len(steps)), sample=dict(
+            theory=kind, skeleton=skeleton, points=sel, sequence=[s['op'] for s in steps], valid=info['valid']))
+        if covline:
+            covlines.append((covline, ('multifit', kind, tuple(sel), len(steps)), rp()))
+        for key, text in problems:
+            # the signature of the known finding is the same in every stream; everything else is keyed by this stream
+            k = key if key == TMV2_KNOWN_KEY else 'multi' + key
+            rep.violation(k, 'fit number %d of a multi-fit history on ONE fitter (%s theory, free=%s, minimum %s): %s; '
+                          'history: %s' % (state['nfit'], kind, info['free'], 'valid' if info['valid'] else 'invalid', text,
+                                           [s['op'] for s in steps]), rp(problem=text))
+            if k != TMV2_KNOWN_KEY:
+                state['stop'] = True
+        if state['stop']:
+            return
+        if not info['valid']:
+            state['invalid_seen'], state['op_after_invalid'] = True, False
+        sync_check('fit')
+
+    def record_limits(d):
+        # remember the numbers for the within-limits clause of later fits
+        if steps and steps[-1]['op'].startswith('limit') and steps[-1]['outcome'] == 'ok':
+            steps[-1]['limits'] = {k: list(v) for k, v in d.items()}
+
+    def rejected():
+        r = rng.random()
+        if r < 0.4:
+            op('release', [rng.choice(good), 'bogus'])
+        elif r < 0.7:
+            op('fix', [rng.choice(names), 'xyz'])
+        else:
+            op('limit', lims={rng.choice(good): (0.0, 1.0), 'nS_': (0.0, 1.0)})
+
+    if not sync_check('init'):
+        return False
+    g1, g2 = rng.sample(good, 2)
+    f1, f2 = rng.sample(flat, 2)
+    if skeleton == 'A':
+        # the first fit has a flat direction; the useless parameter is fixed, another released and limited, refit; more
+        a = [g1, f1]
+        rng.shuffle(a)
+        op('release', a)
+        if rng.random() < 0.5:
+            record_limits(limit([g1]))
+        dofit()
+        op('fix', [f1])
+        if rng.random() < 0.3:
+            rejected()
+        op('release', [g2])
+        if rng.random() < 0.7:
+            record_limits(limit([rng.choice([g1, g2])]))
+        if rng.random() < 0.5:
+            op('free')
+        dofit()
+        r = rng.random()
+        if r < 0.35:
+            op('fix', [g1])
+        elif r < 0.7:
+            op('release', [f2])
+        else:
+            op('fix', ['ALL'])
+            op('release', [g2])
+        dofit()
+    elif skeleton == 'B':
+        # a good fit, then one with a flat direction, then the flat parameter and one more are fixed again; refit
+        op('release', [g1])
+        dofit()
+        a = [g2, f1]
+        rng.shuffle(a)
+        op('release', a)
+        if rng.random() < 0.4:
+            record_limits(limit([g2]))
+        dofit()
+        op('fix', [g1, f1])
+        if rng.random() < 0.3:
+            rejected()
+        if rng.random() < 0.5:
+            record_limits(limit([g2]))
+        dofit()
+        if rng.random() < 0.5:
+            op('release', [g1])
+            dofit()
+    else:
+        # random walk: 3-4 fits with 1-4 random operations in between
+        op('release', [g1] + ([f1] if rng.random() < 0.5 else []))
+        dofit()
+        for _ in range(rng.randint(2, 3)):
+            for _ in range(rng.randint(1, 4)):
+                r = rng.random()
+                free = list(th.free_parameters())
+                if r < 0.25:
+                    op('release', rng.sample(good, rng.randint(1, 2)) + ([rng.choice(flat)] if rng.random() < 0.4 else []))
+                elif r < 0.45 and free:
+                    op('fix', rng.sample(free, rng.randint(1, min(2, len(free)))))
+                elif r < 0.55:
+                    op('fix', ['ALL'])
+                    op('release', [rng.choice(good)])
+                elif r < 0.8:
+                    record_limits(limit(rng.sample(good, rng.randint(1, 2))))
+                elif r < 0.9:
+                    rejected()
+                else:
+                    op('free')
+            dofit()
+    rep.hist('multifit-history', '%s/%s/%d fits%s' % (kind, skeleton, state['nfit'],
+                                                       '/invalid->ops->fit' if state['pattern'] else ''))
+    return state['pattern']
+
+
 def run(rep):
     import gepard as g
     rng = rep.rng
@@ -79,7 +538,15 @@ def run(rep):
         table = {}
         # arbitrary initial fixed / limit state, set on the theory before the fitter exists
         if rng.random() < 0.7:
-            th._release_parameters(*rng.sample(names, rng.randint(1, min(4, len(names)))))
+            sel = rng.sample(names, rng.randint(1, min(4, len(names))))
+            rel = common.private(rep, th, '_release_parameters', 'history stream: the initially released parameters are '
+                                 'written into the public dict theory.parameters_fixed instead')
+            if rel is not None:
+                rel(*sel)
+            else:
+                # parameters_fixed is the documented public state; before a Fitter exists the user may write it directly
+                for n in sel:
+                    th.parameters_fixed[n] = False
         if rng.random() < 0.5:
             th.add_parameters_limits({n: (rng.choice([-1.0, 0.0, 0.1]), rng.choice([2.0, 5.0, 10.0]))
                                       for n in rng.sample(names, rng.randint(1, 3))})
@@ -135,34 +602,23 @@ def run(rep):
             rep.hist('op', optxt.split()[0] + ('/rejected' if out not in ('ok',) and not out.startswith('free') else ''))
         lines.append(hdr + ' ' + ' ; '.join(ops))
         real.append((kind, names, ops, states))
-    outs = common.run_driver(lines)
+    try:
+        outs = common.run_driver(lines)
+    except common.ModelUnavailable as e:
+        # no model output: the property itself is still evaluated on every recorded state of the real objects
+        model_unavailable(rep, e, 'history stream: c11.run')
+        outs = [None] * len(lines)
     for line, (kind, names, ops, states), o in zip(lines, real, outs):
         rep.case('history', line, sample=dict(theory=kind, ops=ops[:8]))
         if o == 'bad-op':
             rep.violation('harness/bad-op', 'driver rejected line', dict(line=line), found_input=False)
-            continue
-        segs = o.split(' ;; ')
+            o = None
+        segs = o.split(' ;; ') if o is not None else [None] * len(states)
+        if len(segs) < len(states):
+            segs = segs + [None] * (len(states) - len(segs))
         for i, ((out, st), seg) in enumerate(zip(states, segs)):
-            t = seg.split()
-            mout, mtoks = ('init', t) if i == 0 else (t[0], t[1:])
-            mst = parse_model_state(mtoks, names)
-            diffs = [k for k in st if st[k] != mst[k]]
-            if out != mout:
-                diffs.append('outcome')
             # the property itself, on the real objects
-            tf = {n: False for n in names}
-            for kv in ([] if st['tfixed'] == '-' else st['tfixed'].split(',')):
-                k, v = kv.split('='); tf[k] = v == '1'
-            tl = {} if st['tlimits'] == '-' else dict(x.split('=') for x in st['tlimits'].split(','))
-            unsync = []
-            if any(tf.get(n, False) != st['mfixed'][n] for n in names) or any(k not in names for k in tf):
-                unsync.append('fixed')
-            if tl != st['mlimits']:
-                unsync.append('limits')
-            if st['tfree'] != st['mfree']:
-                unsync.append('free-lists')
-            if out.startswith('free:') and out.split(':')[1] != (','.join(st['tfree']) or '-'):
-                unsync.append('free_parameters()-return')
+            unsync = unsync_of(st, names, out)
             if unsync:
                 opname = ops[i - 1] if i else 'init'
                 rep.violation('sync/%s/%s' % (opname.split()[0], '+'.join(unsync)),
@@ -172,6 +628,14 @@ def run(rep):
                                   st['mfree'], st['mlimits']),
                               dict(theory=kind, ops=ops[:i], state=st))
                 break
+            if seg is None:
+                continue
+            t = seg.split()
+            mout, mtoks = ('init', t) if i == 0 else (t[0], t[1:])
+            mst = parse_model_state(mtoks, names)
+            diffs = [k for k in st if st[k] != mst[k]]
+            if out != mout:
+                diffs.append('outcome')
             if diffs:
                 rep.violation('model/%s' % '+'.join(diffs), 'model and code differ after %r: %s' % (
                     ops[i - 1] if i else 'init', diffs), dict(theory=kind, ops=ops[:i], code=st, model=mst, out=out, mout=mout),
@@ -180,9 +644,11 @@ def run(rep):
 
     # ---------------- real fits: post-fit clauses ----------------
     from gepard import fits
+    covlines = []       # ((protocol line, real covariance, free list, entries), case key, replay) - the model runs once, below
     nfits = 4 if quick else 16
     for k in range(nfits):
         kind = ['KM09', 'adhoc', 'dis', 'KM09'][k % 4]
+        # harness work (choice of theory, points, released parameters): a fault here is a fault of the machinery
         if kind == 'KM09':
             th = fits.KM09(); th.parameters.update(fits.par_KM09a if k % 2 == 0 else fits.par_KM09b)
             pts = rng.sample(list(fits.GLOpoints), 8)
@@ -200,69 +666,82 @@ def run(rep):
                                   'alpg': 0.15, 'mg2': 0.7})
             pts = rng.sample(list(g.dset[201]) + list(g.dset[202]), 8)
             free = rng.sample(['ns', 'al0s', 'al0g'], rng.randint(1, 2))
+        setlim = rng.random() < 0.7
+        lims = {}
+        ptdesc = [dict(observable=p.get('observable'), xB=p.get('xB'), Q2=p.get('Q2'), t=p.get('t'), phi=p.get('phi'),
+                       val=p.get('val')) for p in pts]
+        replay = dict(stream='fit', theory=kind, free=free, case=k, points=ptdesc)
         try:
-            chi0 = float(th.chisq(g.DataSet(pts)))      # also settles derived parameters (ng = 0.6 - ns …)
-            fit = g.MinuitFitter(g.DataSet(pts), th)
+            ds = g.DataSet(pts)
+            th.chisq(ds)      # settles derived parameters (ng = 0.6 - ns …) before the fitter exists
+            fit = g.MinuitFitter(ds, th)
             fit.release_parameters(*free)
-            lims = {}
-            if rng.random() < 0.7:
+            if setlim:
                 p0 = free[0]
                 v = th.parameters[p0]
                 lims = {p0: (v - abs(v) * 0.5 - 0.5, v + abs(v) * 0.5 + 0.5)}
                 fit.limit_parameters(lims)
-            before = dict(th.parameters)
-            freeset = set(th.free_parameters())    # includes parameters never given a status
-            fit.fit()
-            after = dict(th.parameters)
-            mvals = fit.minuit.values.to_dict()
-            problems = []
-            for n in before:
-                if n not in freeset and common.f2hex(before[n]) != common.f2hex(after[n]):
-                    problems.append(('fixed-changed', n, before[n], after[n]))
-            for n, (lo, hi) in lims.items():
-                if not (lo <= after[n] <= hi):
-                    problems.append(('outside-limits', n, after[n], (lo, hi)))
-            for n in after:
-                if common.f2hex(after[n]) != common.f2hex(mvals[n]):
-                    problems.append(('theory!=minuit.values', n, after[n], mvals[n]))
-            errs = fit.minuit.errors.to_dict()
-            if getattr(th, 'parameters_errors', None) != errs:
-                problems.append(('errors-not-copied', '', '', ''))
-            cov = getattr(th, 'covariance', None)
-            if fit.minuit.covariance is None:
-                if cov:
-                    problems.append(('stale-covariance', '', '', ''))
-            else:
-                want = {(a, b): fit.minuit.covariance[a, b] for a in freeset for b in freeset}
-                fl = th.free_parameters()
-                if cov is None or set(cov) != {(a, b) for a in fl for b in fl} or any(cov[k] != want.get(k) for k in cov):
-                    problems.append(('covariance-not-copied', '', '', ''))
-            if fit.minuit.covariance is not None:
-                # the covsync model: entries for exactly free x free, looked up by NAME in the minimiser's matrix
-                mnames = list(fit.minuit.parameters)
-                fl = list(th.free_parameters())
-                mat = [float(fit.minuit.covariance[a, b]) for a in mnames for b in mnames]
-                line = 'c11.covsync N %s F %s M %s' % (' '.join(mnames), ' '.join(fl), ' '.join(map(common.f2hex, mat)))
-                mo = common.run_driver([line])[0]
-                real_cov = ' '.join('%s,%s=%s' % (k[0], k[1], common.f2hex(v)) for k, v in (cov or {}).items()) or '-'
-                rep.case('covsync', (kind, tuple(fl), k), sample=dict(theory=kind, free=fl, entries=len(cov or {})))
-                if mo != real_cov:
-                    problems.append(('covsync-model-mismatch', '', real_cov[:120], mo[:120]))
-            chi1 = float(th.chisq(g.DataSet(pts)))
-            if abs(chi1 - fit.minuit.fval) > 1e-9 * max(1.0, abs(chi1)):
-                problems.append(('chisq!=fval', '', chi1, fit.minuit.fval))
-            if chi1 > chi0 * (1 + 1e-9) + 1e-12:
-                problems.append(('chisq-increased', '', chi0, chi1))
-            rep.case('fit', (kind, tuple(free), k), sample=dict(theory=kind, free=free, chi0=chi0, chi1=chi1, limits=str(lims)))
-            for pr in problems:
-                rep.violation('fit/%s/%s' % (pr[0], pr[1]), 'after fit() of %s theory with free=%s: %s %s: %r vs %r' % (
-                    kind, free, pr[0], pr[1], pr[2], pr[3]), dict(theory=kind, free=free, problem=str(pr)))
+            replay['limits'] = {n: list(v) for n, v in lims.items()}
+            problems, info, covline = checked_fit(fit, th, ds, extra_lims=lims)
         except Exception as e:
-            rep.violation('fit/exception/' + type(e).__name__, 'fit of %s theory raised %r' % (kind, e), dict(theory=kind, free=free))
+            if isinstance(e, common.ModelUnavailable) or not from_real_code(e):
+                raise       # a fault of the machinery is not a failing input
+            rep.violation('fit/exception/' + type(e).__name__, 'fit of %s theory (free=%s, limits=%s) raised %r' % (
+                kind, free, lims, e), replay)
+            continue
+        rep.case('fit', (kind, tuple(free), k), sample=dict(theory=kind, free=free, chi0=info['chi0'], chi1=info['chi1'],
+                                                            limits=str(lims)))
+        if covline:
+            covlines.append((covline, (kind, tuple(info['free']), k), replay))
+        for key, text in problems:
+            rep.violation(key, 'after fit() of %s theory with free=%s, limits=%s: %s' % (kind, free, lims, text),
+                          dict(replay, problem=text))
+
+    # ---------------- multi-fit histories on one fitter ----------------
+    plan = [('dis', 'A'), ('dis', 'B'), ('KM09', 'A'), ('adhoc', 'R'), ('dis', 'R')]
+    if not quick:
+        plan = plan * 3 + [(rng.choice(['dis', 'dis', 'adhoc', 'KM09']), rng.choice('ABR')) for _ in range(25)]
+    npattern = 0
+    for kind, skel in plan:
+        npattern += bool(multifit_scenario(rep, rng, kind, skel, covlines))
+    extra = 0
+    while npattern == 0 and extra < 8 and not rep.violations:
+        # every run has at least one invalid fit followed by operations followed by another fit
+        extra += 1
+        npattern += bool(multifit_scenario(rep, rng, 'dis', 'AB'[extra % 2], covlines))
+    rep.coverage['multifit_invalid_then_ops_then_fit'] = npattern
+    if npattern == 0 and not rep.violations:
+        rep.notes.append('multi-fit stream: no history of this run had an invalid fit followed by operations and a further fit')
+
+    # ---------------- the covsync model, once for all fits ----------------
+    if covlines:
+        try:
+            mos = common.run_driver([c[0][0] for c in covlines])
+        except common.ModelUnavailable as e:
+            model_unavailable(rep, e, 'fit streams: c11.covsync')
+            mos = None
+        for (cl, key, replay), mo in zip(covlines, mos or []):
+            line, real_cov, fl, nent = cl
+            rep.case('covsync', key, sample=dict(theory=replay.get('theory'), free=fl, entries=nent))
+            if mo != real_cov:
+                # the covariance-not-copied clause above is the property on the real objects (by name, bit for bit); it
+                # raised nothing for this fit, so the model alone disagrees
+                rep.violation('fit/covsync-model-mismatch/', 'covsync model and code differ for free=%s: code %s model %s' % (
+                    fl, real_cov[:120], str(mo)[:120]), dict(replay, line=line[:400]), found_input=False)
     if not ok and not rep.violations:
         rep.violation('lean', 'Lean side of C11 no longer checks: ' + why, dict(reason=why), found_input=False)
     rep.assumptions += ['iminuit: Minuit.fixed / Minuit.limits are per-name stores; migrad moves only free parameters',
-                        '"chi-square does not exceed the starting value" is a property of MIGRAD and is only observed']
+                        '"chi-square does not exceed the starting value" is a property of MIGRAD and is only observed; the '
+                        'starting value of a fit is the chi-square of the theory just before that fit (on the unchanged tree '
+                        'it was never exceeded, by valid and by invalid minima alike)',
+                        'the harness evaluates chi-square between the operations of a multi-fit history without leaving a '
+                        'trace in theory.parameters (derived parameters such as ng = 0.6 - ns are rewritten by every '
+                        'evaluation; a history consists of the fitter\'s operations only)',
+                        'limits set in multi-fit histories always contain the present value of the parameter (a limit that '
+                        'excludes the value of a FIXED parameter makes iminuit move it: the mechanism of the known finding)']
+    rep.notes.append('multi-fit stream: property evaluated directly on the real objects (supports the theorems: the model has '
+                     'no minimiser state across fits); flat directions (parameters the data do not depend on: t-slopes for DIS F2, Htilde shape with tNv = 0) '
+                     'make some fits end invalid; every fit has at least one free parameter the data constrain')
     return rep.finish(level='proof', checker_cmd='lake build Props.C11; #print axioms; gepdriver c11.run vs MinuitFitter histories',
                       trusted=['Lean 4.33 kernel', 'Model/FitSync.lean', 'harness/props/C11.py', 'iminuit (parameter of the model)'])
 
